@@ -79,6 +79,8 @@ M=[
 ("C07_equals_nil_guard_true","list_impl.go","func (ego *list) Equals(another List) bool {\n","func (ego *list) Equals(another List) bool {\n\tif another == nil {\n\t\treturn true\n\t}\n"),
 ("C02_quote_empty_fastpath_bare","anytype.go","func quote(val string) string {\n\tvar buffer bytes.Buffer","func quote(val string) string {\n\tif len(val) == 0 {\n\t\treturn \"\"\n\t}\n\tvar buffer bytes.Buffer"),
 ("C17_sort_guard_gt2","list_impl.go","\t\tslice := ego.IntSlice()\n\t\tsort.Ints(slice)","\t\tslice := ego.IntSlice()\n\t\tif len(slice) > 2 {\n\t\t\tsort.Ints(slice)\n\t\t}"),
+("C05_add_push_value_receiver","list_impl.go","func (ego *list) Add(values ...any) List {\n\tfor _, val := range values {\n\t\tego.val = append(ego.val, parseVal(val))","type spine []field\n\nfunc (s spine) push(f field) { s = append(s, f) }\n\nfunc (ego *list) Add(values ...any) List {\n\tfor _, val := range values {\n\t\tspine(ego.val).push(parseVal(val))"),
+("C09_concat_grows_receiver_through_pointer","list_impl.go","\tnewList := &list{val: make([]field, 0, len(ego.val)+len(other.val))}\n\tnewList.val = append(newList.val, ego.val...)\n\tnewList.val = append(newList.val, other.val...)\n\tnewList.Init(newList)\n\treturn newList\n}","\tgrow := func(spine *[]field, more []field) { *spine = append(*spine, more...) }\n\tgrow(&ego.val, other.val)\n\tnewList := &list{val: make([]field, len(ego.val))}\n\tcopy(newList.val, ego.val)\n\tnewList.Init(newList)\n\treturn newList\n}"),
 ("C07_object_presence_missing_key_skipped","object_impl.go","\tfor k := range ego.val {\n\t\tif !ego.val[k].isEqual(obj.val[k]) {\n\t\t\treturn false\n\t\t}\n\t}\n\treturn true","\tfor k, mine := range ego.val {\n\t\ttheirs, found := obj.val[k]\n\t\tif !found {\n\t\t\tcontinue\n\t\t}\n\t\tif !mine.isEqual(theirs) {\n\t\t\treturn false\n\t\t}\n\t}\n\treturn true"),
 ("C20_errhelper_line_minus_one","parser.go","func unquote(str string, line int) (string, error) {\n\tvar result string\n\tif err := json.Unmarshal([]byte(`\"`+str+`\"`), &result); err != nil {\n\t\treturn \"\", fmt.Errorf(\"not a valid JSON - invalid string '%s' on line %d\", str, line)","func syntaxError(line int, format string, args ...any) error {\n\treturn fmt.Errorf(\"not a valid JSON - \"+format+\" on line %d\", append(args, line-1)...)\n}\n\nfunc unquote(str string, line int) (string, error) {\n\tvar result string\n\tif err := json.Unmarshal([]byte(`\"`+str+`\"`), &result); err != nil {\n\t\treturn \"\", syntaxError(line, \"invalid string '%s'\", str)"),
 ("C17_sort_nil_arm_silent","list_impl.go","\tdefault:\n\t\tpanic(\"the first element of the list has to be either string, int or float\")","\tcase *atNil:\n\t\treturn ego.Ego()\n\tdefault:\n\t\tpanic(\"the first element of the list has to be either string, int or float\")"),
